@@ -6,6 +6,7 @@
 -/
 import Shm.Model.Machine
 import Shm.Crypto.More
+import Shm.Crypto.DES
 import Shm.Proto
 namespace Shm.CryptoMon
 open Shm Shm.Crypto
@@ -53,7 +54,16 @@ def hashOf (mech : Nat) : Option (String × (Bytes → Bytes)) :=
 /-- reference encryption; `none`: not computed -/
 def refEncrypt (o : MonOp) : Option (Option Bytes) := do
   let key ← o.key.bind (attrBytes · CKA.VALUE)
-  if getULongD (o.key.getD []) CKA.KEY_TYPE 0 != CKK.AES then none else
+  let kt := getULongD (o.key.getD []) CKA.KEY_TYPE 0
+  if kt == CKK.DES2 || kt == CKK.DES3 then
+    -- triple DES (FIPS 46-3), 8-byte blocks
+    let E := DES.enc3 key
+    if o.mech == 0x132 then some (if o.inp.length % 8 == 0 then some (DES.ecb8 E o.inp) else none)
+    else if o.mech == 0x133 then some (if o.inp.length % 8 == 0 then some (DES.cbcEnc8 E (o.p.raw.headD []) o.inp) else none)
+    else if o.mech == 0x136 then some (some (DES.cbcEnc8 E (o.p.raw.headD []) (pkcs7Pad 8 o.inp)))
+    else none
+  else
+  if kt != CKK.AES then none else
   let E := aesEncBlock (aesKey key)
   if o.mech == 0x1081 then some (if o.inp.length % 16 == 0 then some (ecbEncrypt E o.inp) else none)
   else if o.mech == 0x1082 then some (if o.inp.length % 16 == 0 then some (cbcEncrypt E (o.p.raw.headD []) o.inp) else none)
@@ -67,7 +77,15 @@ def refEncrypt (o : MonOp) : Option (Option Bytes) := do
 /-- reference decryption; inner `none`: the reference refuses the input (bad padding, bad tag, bad length) -/
 def refDecrypt (o : MonOp) : Option (Option Bytes) := do
   let key ← o.key.bind (attrBytes · CKA.VALUE)
-  if getULongD (o.key.getD []) CKA.KEY_TYPE 0 != CKK.AES then none else
+  let kt := getULongD (o.key.getD []) CKA.KEY_TYPE 0
+  if kt == CKK.DES2 || kt == CKK.DES3 then
+    let D := DES.dec3 key
+    if o.mech == 0x132 then some (if o.inp.length % 8 == 0 then some (DES.ecb8 D o.inp) else none)
+    else if o.mech == 0x133 then some (if o.inp.length % 8 == 0 then some (DES.cbcDec8 D (o.p.raw.headD []) o.inp) else none)
+    else if o.mech == 0x136 then some (if o.inp.isEmpty || o.inp.length % 8 != 0 then none else pkcs7Unpad 8 (DES.cbcDec8 D (o.p.raw.headD []) o.inp))
+    else none
+  else
+  if kt != CKK.AES then none else
   let E := aesEncBlock (aesKey key)
   let D := aesDecBlock (aesKey key)
   if o.mech == 0x1081 then some (if o.inp.length % 16 == 0 then some (((chunks 16 o.inp).map D).flatten) else none)
@@ -86,6 +104,7 @@ def refMac (o : MonOp) : Option Bytes := do
   else if o.mech == 0x261 then some (hmac128 sha384 key o.inp)
   else if o.mech == 0x271 then some (hmac128 sha512 key o.inp)
   else if o.mech == 0x108A then some (cmac (aesEncBlock (aesKey key)) o.inp)
+  else if o.mech == 0x138 then some (DES.cmac8 (DES.enc3 key) o.inp)
   else none
 
 /-- is `sig` a valid signature of the accumulated input under the key of the operation?  `none`: not computed -/
